@@ -23,6 +23,7 @@ pub fn set_seed(seed: Option<u64>) {
     if seed.is_some() {
         MONO_CALLS.with(|c| c.set(0));
         CLOCK_JUMPS.with(|c| c.set(0));
+        POISONED_BYTES.with(|c| c.set(0));
     }
 }
 
